@@ -56,12 +56,13 @@ func c19Size(s string) uint64 {
 
 // hostileLog serves one feeder type's protocol with a log-signed checkpoint of hostile size/root.
 type hostileLog struct {
-	kind   string
-	stub   *tileStub
-	cp     []byte
-	tree   *RefTree
-	size   uint64
-	treeID string
+	kind    string
+	stub    *tileStub
+	cp      []byte
+	tree    *RefTree
+	size    uint64
+	treeID  string
+	variant uint64 // which malformed body the serverless stub serves for tile requests
 }
 
 func (h *hostileLog) ServeHTTP(rw http.ResponseWriter, rq *http.Request) {
@@ -84,7 +85,8 @@ func (h *hostileLog) ServeHTTP(rw http.ResponseWriter, rq *http.Request) {
 			rw.Write(h.cp)
 			return
 		}
-		rw.Write([]byte("not a serverless tile"))
+		// anything else (tiles, leaves) is answered with a body of the serverless tile format's general shape, or not
+		rw.Write([]byte([]string{"not a serverless tile", "32", "32\n", "32\n5", "32\n5\n", "32\n2\nAAAA\n", "", "\n", "33\n1\n", "32\n65535\n", "32\n-1\n"}[h.variant%11]))
 	case "pixel":
 		if p == "/checkpoint.txt" {
 			rw.Write(h.cp)
@@ -225,7 +227,7 @@ func c19Run(c c19Case) string {
 	if size > 1<<40 {
 		st.size = 1 << 20
 	}
-	hl := &hostileLog{kind: c.Feeder, stub: st, cp: cp, tree: tree, size: st.size, treeID: "1234"}
+	hl := &hostileLog{kind: c.Feeder, stub: st, cp: cp, tree: tree, size: st.size, treeID: "1234", variant: c.NetSeed / 7}
 	sn.Hosts[host] = hl
 	u := "http://" + host
 	var ff omniwitness.Feeder
@@ -265,6 +267,44 @@ func c19Run(c c19Case) string {
 	}
 	err = ff.FeedFunc()(ctx, cl, omniwitness.VerifWitnessAdapter(realW), hc, 0)
 	return fmt.Sprintf("ended err=%v", err != nil)
+}
+
+// panicFingerprint names where a crash happened: "/<function of the first frame outside the runtime>/<panic message>", so that
+// a known crash can be told from any other crash of the same feeder.
+func panicFingerprint(out string) string {
+	msg, fn := "", ""
+	lines := strings.Split(out, "\n")
+	for i, l := range lines {
+		if msg == "" && strings.HasPrefix(l, "panic: ") {
+			msg = strings.TrimPrefix(l, "panic: ")
+			if j := strings.Index(msg, " [recovered"); j >= 0 {
+				msg = msg[:j]
+			}
+			if j := strings.Index(msg, "\n"); j >= 0 {
+				msg = msg[:j]
+			}
+		}
+		if fn == "" && msg != "" && strings.HasPrefix(l, "goroutine ") && strings.Contains(l, "[running") {
+			for _, f := range lines[i+1:] {
+				if strings.HasPrefix(f, "\t") || f == "" {
+					continue
+				}
+				name := f
+				if j := strings.LastIndex(name, "("); j > 0 {
+					name = name[:j]
+				}
+				if strings.HasPrefix(name, "runtime.") || name == "panic" || strings.HasPrefix(name, "testing.") || strings.HasPrefix(name, "internal/synctest") || strings.HasPrefix(name, "runtime/") {
+					continue
+				}
+				fn = name
+				break
+			}
+		}
+	}
+	if len(msg) > 80 {
+		msg = msg[:80]
+	}
+	return "/" + fn + "/" + msg
 }
 
 type c19Outcome struct {
@@ -415,7 +455,7 @@ func init() {
 					}
 					out.Viol = []Violation{{Class: "hang", Sig: fmt.Sprintf("hang/feeder=%s/size_class=%s", c.Feeder, cls), Detail: fmt.Sprintf("one %s cycle against a peer with log-signed size %s, a %d-byte root and fault %q: %s", c.Feeder, c.Size, c.Root, c.Net, o.detail)}}
 				case "panic":
-					out.Viol = []Violation{{Class: "panic", Sig: "panic/" + c.Feeder, Detail: fmt.Sprintf("one %s cycle (size %s, %d-byte root, fault %q) crashed the process:\n%s", c.Feeder, c.Size, c.Root, c.Net, o.detail)}}
+					out.Viol = []Violation{{Class: "panic", Sig: "panic/" + c.Feeder + panicFingerprint(o.detail), Detail: fmt.Sprintf("one %s cycle (size %s, %d-byte root, fault %q) crashed the process:\n%s", c.Feeder, c.Size, c.Root, c.Net, o.detail)}}
 				case "harness":
 					out.Infra = []string{o.detail}
 				}
